@@ -17,12 +17,16 @@ Lemma mono_bind {A B} (rg rf : result A) (kg kf : A -> result B) :
 Proof.
   intros H1 H2 b H. destruct rg as [a|e]; cbn in H; [|discriminate H]. rewrite (H1 a eq_refl). cbn. apply H2. exact H.
 Qed.
+Lemma mono_guard {A} (cg cf : bool) e e' (kg kf : result A) :
+  (cf = true -> cg = true) -> mono kg kf -> mono (if cg then Err e else kg) (if cf then Err e' else kf).
+Proof. intros Hc H a Hg. destruct cg; [discriminate Hg|]. destruct cf; [specialize (Hc eq_refl); discriminate Hc|apply H; exact Hg]. Qed.
 Lemma mono_guard_l {A} (c : bool) e (kg rf : result A) : mono kg rf -> mono (if c then Err e else kg) rf.
 Proof. intros H a Hg. destruct c; [discriminate Hg|apply H; exact Hg]. Qed.
 
 Ltac mono_step :=
   match goal with
   | |- mono ?x ?x => apply mono_refl
+  | |- _ => progress (rewrite ?Bool.andb_true_r, ?Bool.andb_false_r; cbn [andb orb negb])
   | |- mono (Err _) _ => apply mono_err_l
   | |- mono (bind _ _) (bind _ _) => apply mono_bind; [ | intros ]
   | |- mono (if ?c then _ else _) (if ?c then _ else _) => let E := fresh "E" in destruct c eqn:E
@@ -74,10 +78,8 @@ Hint Resolve script_code_del_all_mono : core.
 
 Lemma eval_checksig_mono sv sig pk st : mono (eval_checksig g ck sv sig pk st) (eval_checksig f ck sv sig pk st).
 Proof.
-  unfold eval_checksig, eval_checksig_pre, eval_checksig_tapscript. destruct sv.
-  - mono_steps. split_has Hle; rewrite ?Bool.andb_true_r, ?Bool.andb_false_r; cbn [andb]; mono_steps.
-  - mono_steps. split_has Hle; rewrite ?Bool.andb_true_r, ?Bool.andb_false_r; cbn [andb]; mono_steps.
-  - split_has Hle; mono_steps.
+  unfold eval_checksig, eval_checksig_pre, eval_checksig_tapscript.
+  destruct sv; split_has Hle; rewrite ?Bool.andb_true_r, ?Bool.andb_false_r; cbn [andb]; mono_steps.
 Qed.
 Hint Resolve eval_checksig_mono : core.
 
@@ -87,7 +89,7 @@ Hint Resolve multisig_loop_mono : core.
 
 Lemma eval_checkmultisig_mono sv st : mono (eval_checkmultisig g ck sv st) (eval_checkmultisig f ck sv st).
 Proof.
-  unfold eval_checkmultisig. mono_steps.
+  unfold eval_checkmultisig.
   split_has Hle; rewrite ?Bool.andb_true_r, ?Bool.andb_false_r; cbn [andb]; mono_steps.
 Qed.
 Hint Resolve eval_checkmultisig_mono : core.
@@ -123,16 +125,12 @@ Proof.
   destruct (lenz (p_data p) >? MAX_SCRIPT_ELEMENT_SIZE); [apply mono_err_l|].
   match goal with |- mono (if ?c then _ else _) _ => destruct c; [apply mono_err_l|] end.
   match goal with |- mono (if ?c then _ else _) _ => destruct c; [apply mono_err_l|] end.
-  assert (Hcs : mono
-    (if match decode_op (p_code p) with O_CODESEPARATOR => is_base sv && has g SCR_FLAG_CONST_SCRIPTCODE | _ => false end then @Err state SE_OP_CODESEPARATOR else Ok st)
-    (if match decode_op (p_code p) with O_CODESEPARATOR => is_base sv && has f SCR_FLAG_CONST_SCRIPTCODE | _ => false end then @Err state SE_OP_CODESEPARATOR else Ok st)).
-  { destruct (decode_op (p_code p)); try apply mono_refl. split_has Hle; rewrite ?Bool.andb_true_r, ?Bool.andb_false_r; mono_steps. }
-  intros a H.
-  destruct (match decode_op (p_code p) with O_CODESEPARATOR => is_base sv && has g SCR_FLAG_CONST_SCRIPTCODE | _ => false end) eqn:Eg; [discriminate H|].
-  replace (match decode_op (p_code p) with O_CODESEPARATOR => is_base sv && has f SCR_FLAG_CONST_SCRIPTCODE | _ => false end) with false.
-  2:{ symmetry. specialize (Hcs st). rewrite Eg in Hcs. specialize (Hcs eq_refl).
-      destruct (match decode_op (p_code p) with O_CODESEPARATOR => is_base sv && has f SCR_FLAG_CONST_SCRIPTCODE | _ => false end); [discriminate Hcs|reflexivity]. }
-  revert a H. apply mono_bind; [|intros; apply mono_refl].
+  assert (Hcs : match decode_op (p_code p) with O_CODESEPARATOR => is_base sv && has f SCR_FLAG_CONST_SCRIPTCODE | _ => false end = true ->
+                match decode_op (p_code p) with O_CODESEPARATOR => is_base sv && has g SCR_FLAG_CONST_SCRIPTCODE | _ => false end = true).
+  { destruct (decode_op (p_code p)); try discriminate. intros H. apply Bool.andb_true_iff in H. destruct H as [H1 H2].
+    rewrite H1, (Hle _ H2). reflexivity. }
+  apply mono_guard; [exact Hcs|].
+  apply mono_bind; [|intros; apply mono_refl].
   destruct (cond_all_true st && (p_code p <=? 78)).
   - unfold require_minimal. split_has Hle; cbn [andb]; mono_steps.
   - destruct (cond_all_true st || in_if_range (p_code p)); [apply exec_op_mono|apply mono_refl].
@@ -166,7 +164,8 @@ Proof. apply eval_script_mono. Qed.
 Lemma execute_witness_script_mono stack script :
   mono (execute_witness_script_v0 sha256 ripemd160 sha1 g ck stack script) (execute_witness_script_v0 sha256 ripemd160 sha1 f ck stack script).
 Proof.
-  unfold execute_witness_script_v0. destruct (existsb _ stack); [apply mono_err_l|].
+  unfold execute_witness_script_v0.
+  match goal with |- context [existsb ?q stack] => destruct (existsb q stack) end; [apply mono_err_l|].
   apply mono_bind; [apply eval_mono|intros; apply mono_refl].
 Qed.
 
@@ -183,6 +182,7 @@ Proof.
       apply execute_witness_script_mono in E. rewrite E. reflexivity.
     + destruct (lenz prog =? SCR_WITNESS_V0_KEYHASH_SIZE); [|discriminate H].
       destruct (negb (lenz wstack =? 2)); [discriminate H|].
+      set (scr := [118; 169] ++ push_encoding prog ++ [136; 172]) in *.
       inversion H as [H1]. f_equal.
       match type of H1 with ?x = _ => destruct x as [[]|] eqn:E; [|discriminate H1] end.
       apply execute_witness_script_mono in E. rewrite E. reflexivity.
